@@ -2,8 +2,11 @@ package main
 
 import (
 	"fmt"
+	"math"
 	"math/rand"
 	"strconv"
+	"strings"
+	"time"
 
 	"gopkg.in/yaml.v3"
 )
@@ -232,6 +235,9 @@ func avFromNode(n *yaml.Node, depth int) (any, error) {
 			for key.Kind == yaml.AliasNode {
 				key = key.Alias
 			}
+			if key.Kind != yaml.ScalarNode || (key.Tag != "!!str" && key.Tag != "") {
+				avExotic = true // non-string keys are canonicalised by the decoder (0x1f -> "31"): not "as written"
+			}
 			vv, err := avFromNode(v, depth+1)
 			if err != nil {
 				return nil, err
@@ -240,6 +246,11 @@ func avFromNode(n *yaml.Node, depth int) (any, error) {
 		}
 		return obj{"t": "m", "kv": kv}, nil
 	case yaml.ScalarNode:
+		switch n.Tag {
+		case "!!str", "!!int", "!!float", "!!bool", "!!null", "":
+		default:
+			avExotic = true
+		}
 		var x any
 		if err := n.Decode(&x); err != nil {
 			return nil, err
@@ -258,9 +269,17 @@ func avFromNode(n *yaml.Node, depth int) (any, error) {
 		case uint64:
 			return obj{"t": "n", "v": strconv.FormatUint(t, 10)}, nil
 		case float64:
+			if math.IsInf(t, 0) || math.IsNaN(t) {
+				return obj{"t": "n", "v": fmt.Sprint(t)}, nil // "+Inf" "-Inf" "NaN"
+			}
 			return obj{"t": "n", "v": canonNum(t)}, nil
+		case time.Time:
+			avExotic = true
+			b, _ := t.MarshalJSON() // what encoding/json makes of it
+			return avStr(strings.Trim(string(b), "\"")), nil
 		default:
-			return avStr(fmt.Sprint(t)), nil // timestamps etc.: their printed form
+			avExotic = true
+			return avStr(fmt.Sprint(t)), nil
 		}
 	}
 	return nil, fmt.Errorf("unexpected node kind %d", n.Kind)
